@@ -458,6 +458,13 @@ func (env *Env) goObject(obj types.Object) SV {
 	case *types.Const:
 		return env.constSV(o.Val(), o.Type())
 	case *types.Var:
+		// a package-level variable the program assigns is read from the state the specification speaks about
+		// (current, or old inside old(...)); only variables that are never assigned are constants
+		for g := range env.tr.storedGlobals() {
+			if g.Object() == types.Object(o) {
+				return env.goSV(env.tr.getState(env.st, env.tr.globalVar(g)), o.Type())
+			}
+		}
 		return env.goSV(env.tr.globalConst(o), o.Type())
 	case *types.TypeName:
 		return SV{kind: "type", ty: o.Type(), sort: "type"}
